@@ -31,7 +31,7 @@ from fractions import Fraction
 from .. import stream_common as sc
 from ..runner import Prop
 
-BITS_FRACTION = 0.3         # of the generated stack cases: block computed by the Lean model from the seed string
+BITS_FRACTION = 0.4         # of the generated stack cases: block computed by the Lean model from the seed string
 
 NAMES = ["dp", "mortality", "moves_left", "a_b", "a", "x.y", "gets_disease", "dp_2", "b_5", "a_5_b"]
 AKS = [None, None, None, 0, 5, -3, 17, "x", "a_b", "loc", "sex_choice", "b_5_c", "c", "with space", ""]
